@@ -52,12 +52,21 @@ def main(args):
             else:
                 ob.replay = bounds_replay.replay(ob.name, ob.model)
     # engine self-validation: random concrete runs of the real functions against the concrete contract
-    n = 400 if args.tier == "quick" else 4000
+    n = 3000 if args.tier == "quick" else 30000
     runs, fails, samples = bounds_replay.cross_check(run.seed, n)
+    by_family = {}
+    for f in fails:
+        by_family.setdefault(f["family"], f)
+    for fam in ("additive", "multiplicative", "choice", "maximum", "bound"):
+        bad = by_family.get(fam)
+        run.add(core.Obligation("bounded.cross-check[%s].concrete-runs-of-the-real-transfer-function-meet-the-contract" % fam, core.BPASS if bad is None else core.BFAIL, "cpython", 0.0, kind="bounded",
+                                model=bad, detail="%d seeded runs over all families, incl. operands with near-equal large bounds" % runs, replay=None if bad is None else {"reproduced": True, "inputs": bad}))
+    run.bounded.append({"what": "seeded concrete runs of the real transfer functions on INV-satisfying operands against the concrete contract (engine self-validation and bounded stand-in where a target is unsupported)",
+                        "evaluations": runs, "distinct_nontrivial": runs, "seconds": 0.0})
     run.extra["cpython_cross_check"] = {"runs": runs, "failures": len(fails), "failure_samples": fails[:3],
                                         "samples": samples}
     sym_refuted = [o for o in run.obligations if o.verdict == core.REFUTED]
-    if fails and not sym_refuted:
+    if fails and not sym_refuted and not run.errors:
         run.error("engine disagreement: %d concrete post-condition failures but every symbolic obligation proved: %r"
                   % (len(fails), fails[0]))
     run.add(bounds.tightness_choice_finding())
